@@ -7,11 +7,15 @@ def build(ops):
     import blackbird, sympy as sym
     from blackbird.listener import RegRefTransform
     bb = blackbird.BlackbirdProgram(name="g", version="1.0")
-    for o in ops:
+    for i, o in enumerate(ops):
         d = {"op": o["name"], "modes": list(o["modes"])}
         if o["args"] == "plain":
             d["args"] = [0.5]
             d["kwargs"] = {}
+        elif o["args"] == "par":
+            d["args"] = [2 * sym.Symbol("t%d" % i) + 0.5]
+            d["kwargs"] = {"k": sym.Symbol("t%d" % i)}
+            bb._parameters.append("t%d" % i)
         elif o["args"] in ("pos", "kw"):
             r = RegRefTransform(2 * sym.Symbol("q%d" % o["regs"][0]) + 1)
             d["args"] = [r, 1.5] if o["args"] == "pos" else [0.25]
@@ -20,11 +24,44 @@ def build(ops):
     return bb
 
 
-def judge(case):
+def check_graph(G, bb, ops, reach_pairs, what):
+    """the graph G returned for the program bb, which holds the operations `ops` (specification: reach_pairs, 1-based)"""
     import networkx as nx
+    n = len(ops)
+    if sorted(G.nodes()) != list(range(n)):
+        return "%s: nodes %s, expected one node per operation 0..%d" % (what, sorted(G.nodes()), n - 1)
+    for i, o in enumerate(ops):
+        nd = G.nodes[i]
+        real = bb.operations[i]
+        if nd.get("name") != o["name"] or tuple(nd.get("modes", ())) != tuple(o["modes"]):
+            return "%s: node %d carries %r/%r, operation is %s on %s" % (what, i, nd.get("name"), nd.get("modes"), o["name"], o["modes"])
+        if list(nd.get("args", [])) != list(real.get("args", [])) or dict(nd.get("kwargs", {})) != dict(real.get("kwargs", {})):
+            return "%s: node %d arguments %r %r differ from the operation's %r %r" % (what, i, nd.get("args"), nd.get("kwargs"), real.get("args"), real.get("kwargs"))
+    for a, b in G.edges():
+        if not a < b:
+            return "%s: edge %d -> %d does not point from an earlier to a later operation" % (what, a, b)
+    if not nx.is_directed_acyclic_graph(G):
+        return "%s: the graph has a cycle" % what
+    reach = {(a, b) for a in G.nodes() for b in nx.descendants(G, a)}
+    want = {(a - 1, b - 1) for a, b in reach_pairs}
+    if reach != want:
+        return "%s: reachability %s, specification says %s (missing %s, extra %s)" % (what, sorted(reach), sorted(want), sorted(want - reach), sorted(reach - want))
+    # every topological order keeps the program order on every mode / register wire
+    wires = [set(o["modes"]) | set(o["regs"]) for o in ops]
+    for k, order in enumerate(nx.all_topological_sorts(G)):
+        if k >= 24:
+            break
+        pos = {v: p for p, v in enumerate(order)}
+        for i in range(n):
+            for j in range(i + 1, n):
+                if wires[i] & wires[j] and not pos[i] < pos[j]:
+                    return "%s: topological order %s puts operation %d after %d although they share a wire" % (what, order, i, j)
+    return None
+
+
+def judge(case):
     from blackbird.utils import to_DiGraph
     ops = case["ops"]
-    n = len(ops)
     bb = build(ops)
     try:
         G1 = to_DiGraph(bb)
@@ -37,34 +74,28 @@ def judge(case):
     for i, o in enumerate(ops):
         if list(bb.operations[i]["modes"]) != list(o["modes"]):
             return "bad", "after to_DiGraph operation %d of the program has modes %s, it was built with %s" % (i, bb.operations[i]["modes"], o["modes"])
-    if sorted(G.nodes()) != list(range(n)):
-        return "bad", "nodes %s, expected one node per operation 0..%d" % (sorted(G.nodes()), n - 1)
-    for i, o in enumerate(ops):
-        nd = G.nodes[i]
-        real = bb.operations[i]
-        if nd.get("name") != o["name"] or tuple(nd.get("modes", ())) != tuple(o["modes"]):
-            return "bad", "node %d carries %r/%r, operation is %s on %s" % (i, nd.get("name"), nd.get("modes"), o["name"], o["modes"])
-        if list(nd.get("args", [])) != list(real.get("args", [])) or dict(nd.get("kwargs", {})) != dict(real.get("kwargs", {})):
-            return "bad", "node %d arguments %r %r differ from the operation's %r %r" % (i, nd.get("args"), nd.get("kwargs"), real.get("args"), real.get("kwargs"))
-    for a, b in G.edges():
-        if not a < b:
-            return "bad", "edge %d -> %d does not point from an earlier to a later operation" % (a, b)
-    if not nx.is_directed_acyclic_graph(G):
-        return "bad", "the graph has a cycle"
-    reach = {(a, b) for a in G.nodes() for b in nx.descendants(G, a)}
-    want = {(a - 1, b - 1) for a, b in case["reach"]}
-    if reach != want:
-        return "bad", "reachability %s, specification says %s (missing %s, extra %s)" % (sorted(reach), sorted(want), sorted(want - reach), sorted(reach - want))
-    # every topological order keeps the program order on every mode / register wire
-    wires = [set(o["modes"]) | set(o["regs"]) for o in ops]
-    for k, order in enumerate(nx.all_topological_sorts(G)):
-        if k >= 24:
-            break
-        pos = {v: p for p, v in enumerate(order)}
-        for i in range(n):
-            for j in range(i + 1, n):
-                if wires[i] & wires[j] and not pos[i] < pos[j]:
-                    return "bad", "topological order %s puts operation %d after %d although they share a wire" % (order, i, j)
+    why = check_graph(G, bb, ops, case["reach"], "second conversion of the program")
+    if why:
+        return "bad", why
+    cur = bb
+    try:
+        if bb.parameters:
+            # an instance of a template that has been converted before: its graph is the graph of ITS operations
+            cur = bb(**{p: 0.25 * (int(p[1:]) + 1) for p in bb.parameters})
+            why = check_graph(to_DiGraph(cur), cur, ops, case["reach"], "instance of a template that was converted before")
+            if why:
+                return "bad", why
+            if any(getattr(a, "free_symbols", None) for o in cur.operations for a in o.get("args", [])):
+                return "bad", "the instance still holds parameters"
+        if case.get("rev_reach") is not None and len(ops) >= 2:
+            # the operation list reversed in place after a conversion: the graph of the program as it is now
+            cur._operations.reverse()
+            rev = list(reversed(ops))
+            why = check_graph(to_DiGraph(cur), cur, rev, case["rev_reach"], "after reversing the operation list in place")
+            if why:
+                return "bad", why
+    except BaseException as e:      # noqa: BLE001
+        return "bad", "conversion under a history raised %s: %s" % (type(e).__name__, e)
     return "ok", ""
 
 
@@ -89,6 +120,13 @@ def run(rep, tier, seed):
     for c in cases:
         seen.setdefault(json.dumps(c["ops"], sort_keys=True), c)
     cases = list(seen.values())
+
+    def rev_key(c):
+        # a template parameter is named after its operation's position: the reversed program is looked up by shape only
+        return json.dumps(list(reversed(c["ops"])), sort_keys=True)
+    for c in cases:
+        r2 = seen.get(rev_key(c))
+        c["rev_reach"] = r2["reach"] if r2 else None
     res = realrun.pmap(judge, cases)
     nb = 0
     for c, (st, why) in zip(cases, res):
@@ -102,9 +140,13 @@ def run(rep, tier, seed):
     rep.cov["evaluations"] = len(cases)
     rep.cov["distinct_nontrivial"] = sum(1 for c in cases if len(c["ops"]) >= 2)
     rep.cov["exhaustive"] = True
-    rep.cov["rule"] = ("all operation sequences up to the bound over a menu of 38 operations on 3 wires (1..3 modes in varying order, optional measured-"
-                       "register dependency in positional or keyword position, argument-less operations); non-trivial = at least 2 operations; "
-                       "compared: node set and labels, edge direction, acyclicity, the reachability relation, up to 24 topological orders")
+    rep.cov["rule"] = ("all operation sequences up to the bound over a menu of 41 operations on 3 wires (1..3 modes in varying order, optional measured-"
+                       "register dependency in positional or keyword position, argument-less operations, template parameters); non-trivial = at least 2 "
+                       "operations; compared: node set and labels, edge direction, acyclicity, the reachability relation, up to 24 topological orders; "
+                       "each program converted twice, as an instance of an already converted template, and again after its operation list was "
+                       "reversed in place (expected graph: TLC's for the reversed sequence)")
+    rep.cov["history_variants"] = {"instance_of_converted_template": sum(1 for c in cases if any(o["args"] == "par" for o in c["ops"])),
+                                   "reversed_in_place": sum(1 for c in cases if c.get("rev_reach") is not None and len(c["ops"]) >= 2)}
 
 
 def replay(path):
